@@ -1285,8 +1285,10 @@ int safec_vsnprintf_s(out_fct_type out, const char *funcname, char *buffer,
                     invoke_safe_str_constraint_handler(msg, buffer, ESNULLP);
                     return -(ESNULLP);
                 }
-                l = wcsnlen_s(lp, precision ? precision : RSIZE_MAX_WSTR);
-                p = (char *)malloc(l + 1);
+                /* the multibyte form of the whole wide string; the precision
+                   limits the bytes written, in whole characters */
+                l = wcsnlen_s(lp, RSIZE_MAX_WSTR);
+                p = (char *)malloc((size_t)l * MB_CUR_MAX + 1);
                 if (!p) {
                     char msg[80];
                     snprintf(msg, sizeof msg, "%s: malloc %%ls arg failed",
@@ -1294,15 +1296,31 @@ int safec_vsnprintf_s(out_fct_type out, const char *funcname, char *buffer,
                     invoke_safe_str_constraint_handler(msg, buffer, 1);
                     return -1;
                 }
-                err = wcstombs_s(&len, p, l + 1, lp, l);
-                if (err != EOK) {
+                len = l ? wcstombs(p, lp, (size_t)l * MB_CUR_MAX + 1) : 0;
+                if (len == (size_t)-1) {
                     char msg[80];
+                    free(p);
                     snprintf(msg, sizeof msg,
-                             "%s: wcstombs_s for %%ls arg failed", funcname);
-                    invoke_safe_str_constraint_handler(msg, buffer,
-                                                       RCNEGATE(err));
-                    return err;
+                             "%s: wcstombs for %%ls arg failed", funcname);
+                    invoke_safe_str_constraint_handler(msg, buffer, EILSEQ);
+                    return -(EILSEQ);
                 }
+                p[len] = '\0';
+                if ((flags & FLAGS_PRECISION) && precision < len) {
+                    size_t cut = 0;
+                    while (cut < len) {
+                        int k = mblen(p + cut, len - cut);
+                        if (k <= 0)
+                            k = 1;
+                        if (cut + (size_t)k > precision)
+                            break;
+                        cut += (size_t)k;
+                    }
+                    p[cut] = '\0';
+                    len = cut;
+                }
+                l = (unsigned int)len;
+                (void)err;
 #else
                 {
                     char msg[80];
